@@ -77,8 +77,6 @@ def err_kind(e: BaseException) -> str:
         return "err leaf"
     if "invalid leaf version" in m:
         return "err version"
-    if "nesting levels" in m:
-        return "err deep"
     if "control block too long" in m:
         return "err toolong"
     if "invalid control block length" in m:
@@ -1010,23 +1008,6 @@ ORACLES = {"cb.proves": _o_proves, "cb.bitflip": _o_bitflip, "tweak.agree": _o_a
 ORACLES = {k: _guard(v) for k, v in ORACLES.items()}
 
 
-def _o_too_deep(w):
-    """a tree holding a leaf more than MAX_TREE_DEPTH branches below the root is refused (library ValueError, the
-    depth guard's own) by every entry point that walks a tree: no control block could prove that leaf"""
-    tree = tree_of(w["tree"])
-    key = None if w["key"] is None else bytes.fromhex(w["key"])
-    with arm(w["arm"]):
-        for name, r in (("tree_helper", _call(T.tree_helper, tree)), ("output_pubkey", _call(T.output_pubkey, key, tree)),
-                        ("output_prvkey", _call(T.output_prvkey, int(w["d"]), tree)),
-                        ("input_script_sig", _call(T.input_script_sig, key, tree, 0))):
-            if r != ("err", "err deep"):
-                return False, f"{name} on a tree deeper than {T.MAX_TREE_DEPTH}: {str(r)[:120]}"
-    return True, "refused by tree_helper, output_pubkey, output_prvkey, input_script_sig"
-
-
-ORACLES["tree.too_deep"] = _guard(_o_too_deep)
-
-
 def _o_answers(w):
     """valid key and tree: output_pubkey answers (used where the run itself needs the answer)"""
     with arm(w["arm"]):
@@ -1091,10 +1072,6 @@ def run(ctx):
             keyhex = rng.choice([hx(sec), hx(sec), hx(sec), "-"])
             L["outpub"].append(f"outpub@{a} {keyhex} {tk}")
             L["outprv"].append(f"outprv@{a} {d} {tk}")
-            if kind == "chain-too-deep":      # no object to prove anything about: the refusal is the answer
-                L["iss"].append(f"iss@{a} {keyhex} {tk} 0")
-                ctx.check("tree.too_deep", {"tree": tk, "key": None if keyhex == "-" else keyhex, "arm": a, "d": str(d)})
-                continue
             pidx = None
             if big and a == "py" and ctx.tier == "quick":
                 pidx = sorted(set([0, 1, nl - 2, nl - 1] + rng.sample(range(nl), 12)))
